@@ -780,11 +780,15 @@ def namespace_to_model(m, tr, ns):
                 fj.append({'name': f.name or '', 'intro': bool(f.introspectable),
                            'ty': _ty(m, tr, ns, f.type) if (f.type is not None and an is None) else None,
                            'anon': idx.get(id(an)) if isinstance(an, ast.Callback) else None})
+            meths = set(id(x) for x in (getattr(node, 'methods', None) or []))
             top['body'] = {'k': 'compound', 'bare': bool(bare), 'fields': fj,
-                           'props': [{'name': p.name, 'intro': bool(p.introspectable), 'ty': _ty(m, tr, ns, p.type)}
+                           'props': [{'name': p.name, 'intro': bool(p.introspectable), 'ty': _ty(m, tr, ns, p.type),
+                                      'setter': getattr(p, 'setter', None), 'getter': getattr(p, 'getter', None)}
                                      for p in props],
                            'subs': [{'name': s.name or '', 'skip': bool(s.skip), 'intro': bool(s.introspectable),
-                                     'sig': _sig(m, tr, ns, s)} for s in subs]}
+                                     'sig': _sig(m, tr, ns, s), 'method': id(s) in meths,
+                                     'setp': getattr(s, 'set_property', None), 'getp': getattr(s, 'get_property', None)}
+                                    for s in subs]}
         else:
             top['body'] = {'k': 'other'}
         tops.append(top)
@@ -798,7 +802,11 @@ def real_flags(lay):
             'ff': [[bool(x.introspectable) for x in f] for _n, _s, f, _p in lay.tops],
             'pf': [[bool(x.introspectable) for x in p] for _n, _s, _f, p in lay.tops],
             'tskip': [bool(n.skip) for n, _s, _f, _p in lay.tops],
-            'sskip': [[bool(x.skip) for x in s] for _n, s, _f, _p in lay.tops]}
+            'sskip': [[bool(x.skip) for x in s] for _n, s, _f, _p in lay.tops],
+            # accessor names after _introspectable_property_analysis (public attributes of the AST)
+            'pacc': [[[getattr(x, 'setter', None), getattr(x, 'getter', None)] for x in p] for _n, _s, _f, p in lay.tops],
+            'macc': [[[getattr(x, 'set_property', None), getattr(x, 'get_property', None)] for x in s]
+                     for _n, s, _f, _p in lay.tops]}
 
 
 ALLOWED_RAISES = (
@@ -1105,7 +1113,7 @@ def compare_flags(ctx, cnt, cfg, real, modelres, ndis):
         ctx.broken.append('correspondence c05.validate: the model ran out of fuel on %s' % json.dumps(cfg)[:300])
         return False
     ok = True
-    for k in ('tf', 'sf', 'ff', 'pf', 'tskip', 'sskip'):
+    for k in ('tf', 'sf', 'ff', 'pf', 'tskip', 'sskip', 'pacc', 'macc'):
         if cur[k] != real['flags'][k]:
             ok = False
             ndis[0] += 1
@@ -1123,6 +1131,11 @@ def compare_flags(ctx, cnt, cfg, real, modelres, ndis):
         # the model's own closure clause fails although the theorem says it cannot: proof/model drift
         ctx.broken.append('model closure clause false after validate (contradicts C05_closure): %s' % json.dumps(cfg)[:600])
     cnt.hit('model:rounds=%s' % min(cur['rounds'], 6))
+    # how often the property analysis has accessor names to clear / to keep
+    for before, after in zip(real['model']['tops'], cur['pacc']):
+        for pb, pa in zip(before['body'].get('props', []), after):
+            if pb.get('setter') or pb.get('getter'):
+                cnt.hit('model:accessor:%s' % ('kept' if (pa[0] or pa[1]) else 'cleared'))
     if modelres['old']['tf'] != cur['tf'] or modelres['old']['sf'] != cur['sf']:
         cnt.hit('model:old-order-differs')
         if not modelres['old']['closed']:
